@@ -156,7 +156,10 @@ let do_ft id blocks root steps links obs =
           end) sobs;
       if ex <> "exp:" ^ string_of_dm (erase (xexpand xfuel st_final !cur)) then add "reload_differs";
       if pu <> "pure:1" then add "input_mutated";
-      List.iter (fun (_, v) -> if not (dm_eqb (sort_maps rfc_ltb v) v) then add "noncanonical_block")
+      List.iter (fun (c, v) ->
+          if not (dm_eqb (sort_maps rfc_ltb v) v) then add "noncanonical_block";
+          (* stored under the prototype of the link that was crossed: CIDv1, dag-cbor, sha2-256 *)
+          if not (starts_with "01711220" (hex_of_bytes c)) then add "link_prototype_changed")
         (parse_blocks (after "new:" nw));
       if !fails = [] then "ok" else "fail:" ^ String.concat "," (List.rev !fails)
     | _ -> "fail:malformed_obs" in
@@ -198,6 +201,20 @@ let wfn_of (t : string) : dm -> dm option =
   | "m2l" -> (fun v -> match v with DMap _ -> Some (DList []) | _ -> None)
   | _ -> let c = dm_of_string (after "c:" t) in (fun _ -> Some c)
 
+(* selector-independent part of "exactly the targeted positions are replaced": the result differs
+   from the input only where a node was replaced by what the callback returns for it (a crossed link
+   counts as its block) *)
+let rec walk_rel (g : dm -> dm option) st (a : dm) (b : dm) : bool =
+  (match g a with Some v -> dm_eqb v b | None -> false)
+  || (match a, b with
+      | DLink c, _ when not (dm_eqb a b) ->
+        (match List.assoc_opt c st with Some blk -> walk_rel g st blk b | None -> false)
+      | DList la, DList lb -> List.length la = List.length lb && List.for_all2 (walk_rel g st) la lb
+      | DMap ma, DMap mb ->
+        List.length ma = List.length mb
+        && List.for_all2 (fun (k, x) (k', y) -> k = k' && walk_rel g st x y) ma mb
+      | _, _ -> dm_eqb a b)
+
 let do_wt id blocks root selt fn obs =
   let st = parse_blocks blocks in
   let root = dm_of_string root in
@@ -216,6 +233,8 @@ let do_wt id blocks root selt fn obs =
       if pu <> "pure:1" then add "input_mutated";
       if nw <> "new:0" then add "walk_stored_blocks";
       if outcome = "panic" then add "walk_panic";
+      if starts_with "ok:" outcome && not (String.contains outcome '!')
+         && not (walk_rel (wfn_of fn) st root (dm_of_string (after "ok:" outcome))) then add "walk_result_not_update";
       if fn = "id" && starts_with "ok:" outcome then begin
         let r = dm_of_string (after "ok:" outcome) in
         let full v = erase (xexpand xfuel st v) in
